@@ -29,6 +29,14 @@ class Undecided(Exception):
     pass
 
 
+class _Raised(Exception):
+    """An explicit ``raise`` reached while interpreting a helper function called from the dispatch."""
+
+    def __init__(self, cls: str, node: t.Any):
+        self.cls = cls
+        self.node = node
+
+
 # ---------------------------------------------------------------------------- abstract values
 
 
@@ -162,6 +170,7 @@ class Interp:
         self.cfg = cfg_of(model, func)
         self.family = {c.qualname: c for c in model.converter_family()}
         self.trace: t.List[Node] = []
+        self._depth = 0
 
     # -- name resolution
 
@@ -480,6 +489,21 @@ class Interp:
                 return ConvResult('conv', cls=cls.name.split('.')[-1], args=args, kwargs=kwargs)
         if fname is not None and fname.startswith('warnings.'):
             return None
+        if fname is not None and fname in self.model.functions and self.model.functions[fname].cls is None \
+                and isinstance(self.model.functions[fname].node, ast.FunctionDef) and self._depth < 4:
+            # a module-level helper of the package (e.g. an extracted "abstract -> concrete" function): interpret it
+            g = self.model.functions[fname]
+            sub = Interp(self.model, g)
+            sub._depth = self._depth + 1
+            env2: t.Dict[str, t.Any] = {}
+            for p_, a in zip(g.params, args):
+                env2[p_] = a
+            env2.update(kwargs)
+            kind, val = sub._exec(env2)
+            self.trace.extend(sub.trace)
+            if kind == 'raise':
+                raise _Raised(val[0], val[1])
+            return val[0]
         raise Undecided(f"call {unparse(e)[:70]}")
 
     def isinstance_(self, x: t.Any, classes: t.List[t.Any]) -> bool:
@@ -519,6 +543,37 @@ class Interp:
         env: t.Dict[str, t.Any] = {params[0]: ty}
         if len(params) > 1:
             env[params[1]] = Marker('handlers')
+        try:
+            kind, val = self._exec(env, max_steps)
+        except _Raised as e:
+            return ConvResult('raise', cls=e.cls, node=e.node)
+        if kind == 'raise':
+            return ConvResult('raise', cls=val[0], node=val[1])
+        n = val[1]
+        v = val[0]
+        if v is None:
+            return ConvResult('raise', detail='returns None', node=n)
+        if isinstance(v, tuple) and v and v[0] == 'row':
+            _, tbl, key, vexp = v
+            sub = Interp.__new__(Interp)
+            sub.__dict__.update(self.__dict__)
+            sub.func = _ModuleScope(tbl.module)  # type: ignore[assignment]
+            try:
+                rv = sub.ev(vexp, {})
+            except Undecided:
+                rv = None
+            if isinstance(rv, ConvResult):
+                rv.node = n
+                rv.detail = f"row {key!r} of {tbl.name}"
+                return rv
+            return ConvResult('conv', cls='<table row>', args=[key], node=n, detail=f"row {key!r} of {tbl.name}")
+        if isinstance(v, ConvResult):
+            v.node = n
+            return v
+        raise Undecided(f"return value {v!r}")
+
+    def _exec(self, env: t.Dict[str, t.Any], max_steps: int = 4000) -> t.Tuple[str, t.Any]:
+        """Walk the CFG of self.func: ('return', (value, node)) or ('raise', (class name, node))."""
         n = self.cfg.entry
         iters: t.Dict[int, t.List[t.Any]] = {}
         self.trace = []
@@ -550,6 +605,8 @@ class Interp:
                         iters[n.id] = []          # no call-level handlers; global handlers answer NotImplemented
                     elif isinstance(itv, tuple):
                         iters[n.id] = list(itv)
+                    elif isinstance(itv, TableV):
+                        iters[n.id] = list(itv.keys)      # iterating a dict yields its keys, in order
                     else:
                         raise Undecided(f"iteration over {itv!r}")
                 if iters[n.id]:
@@ -565,29 +622,11 @@ class Interp:
                 continue
             if n.kind == 'return':
                 if n.ast is None or n.ast.value is None:
-                    return ConvResult('raise', detail='returns None', node=n)
-                v = self.ev(n.ast.value, env)
-                if isinstance(v, tuple) and v and v[0] == 'row':
-                    _, tbl, key, vexp = v
-                    sub = Interp.__new__(Interp)
-                    sub.__dict__.update(self.__dict__)
-                    sub.func = _ModuleScope(tbl.module)  # type: ignore[assignment]
-                    try:
-                        rv = sub.ev(vexp, {})
-                    except Undecided:
-                        rv = None
-                    if isinstance(rv, ConvResult):
-                        rv.node = n
-                        rv.detail = f"row {key!r} of {tbl.name}"
-                        return rv
-                    return ConvResult('conv', cls='<table row>', args=[key], node=n, detail=f"row {key!r} of {tbl.name}")
-                if isinstance(v, ConvResult):
-                    v.node = n
-                    return v
-                raise Undecided(f"return value {v!r}")
+                    return 'return', (None, n)
+                return 'return', (self.ev(n.ast.value, env), n)
             if n.kind == 'raise':
                 c = self.cfg.raised_class(n.ast)
-                return ConvResult('raise', cls=(c or '?').split('.')[-1], node=n)
+                return 'raise', ((c or '?').split('.')[-1], n)
             if n.kind in ('handler', 'with'):
                 raise Undecided(f"unexpected {n.kind} node on the dispatch path")
             raise Undecided(f"node kind {n.kind}")
